@@ -140,7 +140,7 @@ def inv_oracle(vals, line):
 
 
 
-GROUP_DBL = dict(name='dbl', sources=['h_dbl.cpp'], repo_sources=[], driver=None, replay_prefix=('o.c12.ldmean', 'o.c13.cinvd', 'o.c13.inttypes', 'o.c14.angletypes', 'o.c15.dyadic'))
+GROUP_DBL = dict(name='dbl', sources=['h_dbl.cpp'], repo_sources=[], driver=None, replay_prefix=('o.c11.narrowvar', 'o.c12.ldmean', 'o.c13.cinvd', 'o.c13.inttypes', 'o.c14.angletypes', 'o.c15.dyadic'))
 
 
 def gen_dbl_c13(g, tier):
@@ -191,6 +191,26 @@ def gen_dbl_c12(g, tier):
         items = []
         for _ in range(n): items += [dhex(g.r.uniform(-9, 9)), str(base + g.randint(-3, 3))]
         cs.append(Case('o.c12.ldmean %d %s' % (n, ' '.join(items)), 'orc', 'long-double-variances-beyond-double', check=small_hex_check(1e-15)))
+    return cs
+
+
+def gen_dbl_c11(g, tier):
+    """Estimate<T,U> with U narrower than T (harness group dbl), values over many decades"""
+    cs = []
+    def chk(vals, line):
+        t = line.split()
+        if not t or t[0] != 'ok' or len(t) != 3: return 'error result ' + line[:100]
+        import struct
+        w = struct.unpack('<d', struct.pack('<Q', int(t[1], 16)))[0]
+        if not (w <= 5000): return 'variance of an Estimate<T,U> with narrower U differs from the rule by %g units of the precision of U' % w
+        if t[2] != '0': return '%s values differ from the reference' % t[2]
+        return None
+    for _ in range(20 if tier == 'quick' else 600):
+        ex, ey = g.choice([0, 0, g.r.uniform(-8, 8), g.r.uniform(8, 16.5), g.r.uniform(-16.5, -8), g.r.uniform(70, 140), g.r.uniform(-140, -70)]), 0
+        ey = ex + g.r.uniform(-1, 1)
+        x = g.choice([-1, 1]) * g.r.uniform(1, 9) * 10 ** ex; y = g.choice([-1, 1]) * g.r.uniform(1, 9) * 10 ** ey
+        vx = (abs(x) * 10 ** g.r.uniform(-4, -1)) ** 2; vy = (abs(y) * 10 ** g.r.uniform(-4, -1)) ** 2
+        cs.append(Case('o.c11.narrowvar %s %s %s %s' % (dhex(x), dhex(vx), dhex(y), dhex(vy)), 'orc', 'variance-type-narrower-than-value-type', check=chk))
     return cs
 
 
